@@ -4,6 +4,7 @@ import (
 	"fmt"
 	"go/ast"
 	"go/types"
+	"strings"
 
 	"gvc/internal/contract"
 	"gvc/internal/smt"
@@ -178,6 +179,27 @@ func (e *Engine) VerifyFunc(key string, opts VerifyOpts) error {
 		if r := sig.Recv(); r != nil && con.Recv != "" {
 			env.Bound[con.Recv] = Val{e.entry.vars[r], r.Type()}
 		}
+		// ghost updates at return: "ghost-on-return: name = expr"
+		for _, gu := range con.Attrs["ghost-on-return"] {
+			j := strings.Index(gu, "=")
+			if j < 0 {
+				return fmt.Errorf("%s: ghost-on-return of %s needs name = expr", con.File, key)
+			}
+			name := strings.TrimSpace(gu[:j])
+			x, err := spec.Parse(strings.TrimSpace(gu[j+1:]))
+			if err != nil {
+				return fmt.Errorf("%s: ghost-on-return of %s: %v", con.File, key, err)
+			}
+			old, ok := fst.named[name]
+			if !ok {
+				return fmt.Errorf("%s: ghost-on-return of %s: %s is not a ghost state variable", con.File, key, name)
+			}
+			v, err := e.evalSpec(env, x)
+			if err != nil {
+				return fmt.Errorf("%s: ghost-on-return of %s: %v", con.File, key, err)
+			}
+			fst.named[name] = Val{v.T, old.Ty}
+		}
 		for i, en := range con.Ensures {
 			v, err := e.evalSpec(env, en.Expr)
 			if err != nil {
@@ -232,7 +254,16 @@ func (e *Engine) checkFrame(st *State, con *contract.Func, env *SpecEnv, retName
 		targets = append(targets, t)
 		return t
 	}
+	var anyFids []int
 	for _, a := range con.Assigns {
+		if strings.HasPrefix(a, "any ") {
+			fid, err := e.anyFieldID(strings.TrimSpace(a[4:]))
+			if err != nil {
+				return fmt.Errorf("assigns %q: %v", a, err)
+			}
+			anyFids = append(anyFids, fid)
+			continue
+		}
 		x, err := spec.Parse(a)
 		if err != nil {
 			return err
@@ -255,6 +286,7 @@ func (e *Engine) checkFrame(st *State, con *contract.Func, env *SpecEnv, retName
 			if !ok {
 				return fmt.Errorf("assigns %q: no such field", a)
 			}
+			idx = e.FID(pt.Elem(), idx)
 			if t := find(base.T); t.fields != nil {
 				t.fields[idx] = true
 			}
@@ -287,6 +319,9 @@ func (e *Engine) checkFrame(st *State, con *contract.Func, env *SpecEnv, retName
 	}
 	j := e.Fresh("frame_j", smt.Int)
 	var fconds []smt.T
+	for _, f := range anyFids {
+		fconds = append(fconds, smt.Neq(j, smt.IntLit(f)))
+	}
 	for _, t := range targets {
 		if t.fields != nil {
 			var ne []smt.T
@@ -306,6 +341,9 @@ func (e *Engine) checkFrame(st *State, con *contract.Func, env *SpecEnv, retName
 	o1 := smt.App(smt.V, "select", st.heap, p)
 	o0 := smt.App(smt.V, "select", e.entry.heap, p)
 	goal := smt.Ite(isTarget, smt.Eq(smt.App(smt.V, "f_get", o1, j), smt.App(smt.V, "f_get", o0, j)), smt.Eq(o1, o0))
+	if len(anyFids) > 0 {
+		goal = smt.Eq(smt.App(smt.V, "f_get", o1, j), smt.App(smt.V, "f_get", o0, j))
+	}
 	e.oblige(pre, "frame", "assigns@"+retName, e.cur.Decl.Body.Rbrace, goal)
 	return nil
 }
